@@ -501,6 +501,12 @@ class ExprMixin:
                 return self.concat(a, b, st)
             return VInt(coerce(a, Int).t + coerce(b, Int).t)
         if isinstance(op, ast.Sub):
+            if isinstance(a, VSet) and isinstance(b, VSet):
+                r = fresh(a.sort, "setdiff")
+                k = z3.FreshConst(a.sort.k.z3(), "dk")
+                st.pc.append(z3.ForAll([k], z3.Select(r.sort.mem(r.t), k) == z3.And(z3.Select(a.sort.mem(a.t), k), z3.Not(z3.Select(b.sort.mem(b.t), k)))))
+                st.pc.append(z3.And(r.sort.card(r.t) >= 0, r.sort.card(r.t) <= a.sort.card(a.t)))
+                return r
             return VInt(coerce(a, Int).t - coerce(b, Int).t)
         if isinstance(op, ast.Mult):
             if isinstance(a, VStr) and isinstance(b, (VInt, VBool)):
@@ -652,9 +658,19 @@ class ExprMixin:
         if isinstance(b, VList):
             it = coerce(i, Int).t
             n = b.sort.len(b.t)
-            idx = z3.simplify(z3.If(it < 0, it + n, it))
             if cx.spec:
-                return [(st, list_get(b, idx))]
+                # contract expressions: xs[i] is the mathematical select (literal negative indices only)
+                sv = z3.simplify(it)
+                if z3.is_int_value(sv) and sv.as_long() < 0:
+                    return [(st, list_get(b, n + sv.as_long()))]
+                return [(st, list_get(b, it))]
+            sv = z3.simplify(it)
+            if z3.is_int_value(sv):
+                idx = sv if sv.as_long() >= 0 else z3.simplify(n + sv.as_long())
+            elif not self.feasible(st, it < 0):
+                idx = it
+            else:
+                idx = z3.simplify(z3.If(it < 0, it + n, it))
             ok, bad = self.fork(st, z3.And(idx >= 0, idx < n))
             if bad is not None:
                 self.raise_(cx, bad, "builtins.IndexError")
@@ -671,6 +687,8 @@ class ExprMixin:
             if bad is not None:
                 self.raise_(cx, bad, "builtins.KeyError")
             return [(ok, dict_get(b, i))] if ok is not None else []
+        if isinstance(b, VMap):
+            return [(st, mk_val(z3.Select(b.t, term_of(i, b.sort.k)), b.sort.v))]
         if isinstance(b, VConcDict):
             # concrete keys: resolve by equality
             outs = []
@@ -909,4 +927,4 @@ SPEC_BUILTINS = {"implies", "iff", "old", "forall", "exists", "isinst", "cls_is"
                  "field", "len", "str", "all", "any", "range", "int", "bool", "isinstance", "type", "zip", "enumerate",
                  "list", "tuple", "concat", "prefix_of", "seq_eq", "allocated", "unchanged", "strlen", "substr",
                  "startswith", "endswith", "contains", "old_field", "replace", "min", "max", "abs", "index_of", "in_re_ws",
-                 "set_subset", "lemma", "dict_keys", "result_is_new", "str_from_int", "at"}
+                 "set_subset", "lemma", "dict_keys", "store", "const_map", "any_value", "pigeonhole", "card", "result_is_new", "str_from_int", "at"}
